@@ -289,9 +289,9 @@ def run_guarantee(case):
                 text = obj.serialize()
                 back = parse(json.loads(text))
                 res["roundtrip_equal"] = bool(back == obj)
-                # the same JSON VALUE (member order is not part of it: with extension_name= the side extension is
-                # appended after construction, on re-parsing it sits at the position of the `extensions` property)
-                res["roundtrip_text_equal"] = json.loads(back.serialize()) == json.loads(text)
+                # byte for byte: serializing the re-parsed object reproduces the text (C01), and the same class
+                res["roundtrip_text_equal"] = back.serialize() == text
+                res["roundtrip_same_class"] = type(back) is type(obj)
                 res["values_kept"] = all(json.loads(text_v) == v for text_v, v in
                                          ((json.dumps(json.loads(pick(back).serialize())[k]), v) for k, v in vals.items()))
             except Exception as e:  # noqa: BLE001
